@@ -203,6 +203,7 @@ pub fn parse_args(mut it: impl Iterator<Item = String>) -> Args {
 /// No '/', NUL, newline or tab (line-oriented plan output is parsed by the harnesses).
 pub fn hostile_components() -> Vec<String> {
     let mut v: Vec<String> = ["f", "g", "a b", "it's", "say \"hi\"", "é", "日本", "a日本", "ab日本", "-dash", "--", "x*y", "q?", "[br]", "a\\b", "$HOME", "`id`", "a;b",
+        "a..b", "..x", "x..", "...",        // two dots inside a NAME are not a parent-directory component
         ".hidden", ".copiarc", ".copia-hooks", "copia-tmp", "x.copia-tm", "conflict", "F", "G", "a.b", "a-b", "a+", "a,b", "~", "#x", "%41", "a&b", "(p)", "100%", "ü"]
         .iter().map(|s| s.to_string()).collect();
     v.push("n".repeat(200));
